@@ -1014,10 +1014,20 @@ func main() {
 	// config file before anything runs concurrently); do that before the first concurrent case
 	_ = config.Decode(map[string]interface{}{}, &struct{}{})
 	drv.Main(&drv.Prop{ID: "C18", Gen: c18Gen, Run: c18Run, Class: c18Class, Workers: 8,
-		Rule: "every constructor shape (component|factory x config none|struct|*struct x ctor error x factory error x impl|interface product x default-config absent|fresh|nil|shared) x requested form (New, factory without/with error) x fillConf given or not, each run with a fault-free and a random fault plan and a random number k<=20 of calls (thorough: some k up to 120, plus EVERY fault plan over invocation indices 0..2 for k=2 and, for pointer configs, 0..3 for k=3; registrations Register must refuse: one case per shape and round); per valid shape x form one run through pluginconfig.Hook/FactoryHook with the real config decoder as fillConf and one with settings the decoder refuses; per valid shape one pool of the real engine (constructor registered with core/register.Gun, engine.Config decoded with the plugin hooks, 0..6 instances, shared or per-instance rps schedule, faults at warm-up / first instance); per valid shape two histories (direct and through the hooks): 2..4 creations on ONE registration, each of a random form with its own user settings and 0..4 calls, one fault plan over the running invocation indices; Register driven over constructor and default-config TYPES (supported forms and their neighbours: arity, result kinds, config kinds, implements, default-config function type, plugin type, name, duplicate); SESSIONS (1500 quick / 60000 thorough): ONE registry with 1..5 registrations over 3 plugin interfaces (two of them with the same type NAME in different packages) x 4 names (same name under several types, names that differ by letter case only, now and then an empty name, a duplicate, a default-config function that does not fit, a late Register), each registration with its own instrumented user code and fault plan, then 4..15 operations: New / NewFactory by (type, name) of which about a third was never registered, calls of ANY factory handed out so far in any interleaving with later creations (also one past the end), Lookup; per valid shape one creation for another name / another plugin type than the registered one, directly or through the hooks (nm=, pt=); per valid shape two runs of pluginconfig.Hook / FactoryHook on well- and ill-formed plugin config data (via=hookconf: the `type` key in any letter case and near-miss spellings, none / several / non-string / empty / unknown names, the three kinds of data a decoder hands over incl. non-string keys, a type without plugins); round 3: on every hook / engine / hookconf case a VALIDATION RULE of the config type (config.RegisterCustom: Conf.C >= vmin, vmin one of 0 0 0 1 1 30 60 95) with the real config.DecodeAndValidate as fillConf, every fourth case with settings that consist of the `type` key only (so the default / zero configuration decides), histories through the hooks with valid and invalid creations mixed; per valid shape with a config one NESTED creation (via=nest: the outer configuration contains a plugin field, the decoder creates the nested component of a second registration through the hooks while it fills the outer config; own shapes, settings, fault plans and the rule on both sides); 150 (thorough 4000) CONCURRENT cases (conc=1: 2..6 plain creations side by side on one registry, one goroutine each; the driver built with -race runs exactly these and reports a case during which the race runtime logged a data race); non-trivial = at least one call, a refused registration, a type case, a session, a lookup failure"})
+		Rule: "every constructor shape (component|factory x config none|struct|*struct x ctor error x factory error x impl|interface product x default-config absent|fresh|nil|shared) x requested form (New, factory without/with error) x fillConf given or not, each run with a fault-free and a random fault plan and a random number k<=20 of calls (thorough: some k up to 120, plus EVERY fault plan over invocation indices 0..2 for k=2 and, for pointer configs, 0..3 for k=3; registrations Register must refuse: one case per shape and round); per valid shape x form one run through pluginconfig.Hook/FactoryHook with the real config decoder as fillConf and one with settings the decoder refuses; per valid shape one pool of the real engine (constructor registered with core/register.Gun, engine.Config decoded with the plugin hooks, 0..6 instances, shared or per-instance rps schedule, faults at warm-up / first instance); per valid shape two histories (direct and through the hooks): 2..4 creations on ONE registration, each of a random form with its own user settings and 0..4 calls, one fault plan over the running invocation indices; Register driven over constructor and default-config TYPES (supported forms and their neighbours: arity, result kinds, config kinds, implements, default-config function type, plugin type, name, duplicate); SESSIONS (1500 quick / 60000 thorough): ONE registry with 1..5 registrations over 3 plugin interfaces (two of them with the same type NAME in different packages) x 4 names (same name under several types, names that differ by letter case only, now and then an empty name, a duplicate, a default-config function that does not fit, a late Register), each registration with its own instrumented user code and fault plan, then 4..15 operations: New / NewFactory by (type, name) of which about a third was never registered, calls of ANY factory handed out so far in any interleaving with later creations (also one past the end), Lookup; per valid shape one creation for another name / another plugin type than the registered one, directly or through the hooks (nm=, pt=); per valid shape two runs of pluginconfig.Hook / FactoryHook on well- and ill-formed plugin config data (via=hookconf: the `type` key in any letter case and near-miss spellings, none / several / non-string / empty / unknown names, the three kinds of data a decoder hands over incl. non-string keys, a type without plugins); round 3: on every hook / engine / hookconf case a VALIDATION RULE of the config type (config.RegisterCustom: Conf.C >= vmin, vmin one of 0 0 0 1 1 30 60 95) with the real config.DecodeAndValidate as fillConf, every fourth case with settings that consist of the `type` key only (so the default / zero configuration decides), histories through the hooks with valid and invalid creations mixed; per valid shape with a config one NESTED creation (via=nest: the outer configuration contains a plugin field, the decoder creates the nested component of a second registration through the hooks while it fills the outer config; own shapes, settings, fault plans and the rule on both sides); 150 (thorough 4000) CONCURRENT cases (conc=1: 2..6 plain creations side by side on one registry, one goroutine each; the driver built with -race runs exactly these and reports a case during which the race runtime logged a data race); round 6: a third of the direct / hook / history / hookconf cases with an implementation type that ALSO implements error, fmt.Stringer and io.Closer (impl=x, class suffix +x); NewFactory / LookupFactory / FactoryPluginType / New over 31 REQUESTED types (via=facty: the two supported factory forms, plugin types nobody registered, non-interface products, second results that are not error incl. one that implements it, arity, non-funcs) x registered / unknown / empty name; two resp. an explicit nil optional fillConf / default-config argument (fillopt=, dopt=); non-trivial = at least one call, a refused registration, a type case, a session, a lookup failure"})
 }
 
+// c18Class: the coverage class; round 6: `+x` marks a case whose implementation type also implements error / Stringer /
+// Closer, so that the distribution in stats.json shows the dimension
 func c18Class(input, obs string) string {
+	c := c18ClassBase(input, obs)
+	if c != "" && strings.Contains(input, " impl=x") {
+		return c + "+x"
+	}
+	return c
+}
+
+func c18ClassBase(input, obs string) string {
 	kv := drv.KV(input)
 	if kv["via"] == "reg" {
 		return "reg-" + obs
